@@ -96,7 +96,7 @@ func parseGraph(s string) (Graph, bool) {
 					f.Wrap = p[1]
 				}
 				for _, c := range f.Wrap {
-					if c != 'a' && c != 'm' {
+					if c != 'a' && c != 'm' && c != 'f' {
 						return nil, false
 					}
 				}
@@ -210,6 +210,106 @@ func genGraph(rng *rand.Rand) (Graph, int) {
 	return g, style
 }
 
+// genFlattenGraph draws object messages with flattened message fields (wrapper 'f', at most one
+// per node so that no JSON name can appear twice): two messages that flatten each other, rings
+// of flattens, a flattened child shared by several parents, chains; plus plain references.
+func genFlattenGraph(rng *rand.Rand) Graph {
+	n := 2 + rng.IntN(4)
+	g := make(Graph, n)
+	shape := rng.IntN(4) // 0 mutual pair (+ others), 1 ring, 2 shared child, 3 random
+	for i := range g {
+		g[i] = Node{Kind: 'o', Ok: true}
+		for k := 0; k < 1+rng.IntN(2); k++ {
+			g[i].Fields = append(g[i].Fields, Field{Num: k + 1, Base: 's'})
+		}
+		target := -1
+		switch shape {
+		case 0:
+			if i < 2 {
+				target = 1 - i
+			} else if rng.IntN(2) == 0 {
+				target = rng.IntN(2)
+			}
+		case 1:
+			target = (i + 1) % n
+		case 2:
+			if i != n-1 {
+				target = n - 1
+			} else if rng.IntN(3) == 0 {
+				target = rng.IntN(n - 1)
+			}
+		default:
+			if rng.IntN(3) > 0 {
+				target = rng.IntN(n)
+			}
+		}
+		if target >= 0 && target != i {
+			g[i].Fields = append(g[i].Fields, Field{Num: len(g[i].Fields) + 1, Wrap: "f", Base: 'r', Ref: target})
+		}
+		if rng.IntN(3) == 0 { // a plain (nested, array or map) reference as well
+			w := []string{"", "a", "m"}[rng.IntN(3)]
+			g[i].Fields = append(g[i].Fields, Field{Num: len(g[i].Fields) + 1, Wrap: w, Base: 'r', Ref: rng.IntN(n)})
+		}
+	}
+	return g
+}
+
+// clientShape is what the codecs see of a schema: the client property list (flattened fields
+// expanded) of the root and, below it, of every object it reaches, with JSON names and proto paths.
+func clientShape(root j5schema.RootSchema) (out string) {
+	defer func() {
+		if r := recover(); r != nil {
+			out = fmt.Sprintf("panic:%v", r)
+		}
+	}()
+	seen := map[string]bool{}
+	var obj func(r j5schema.RootSchema) string
+	var field func(f j5schema.FieldSchema) string
+	props := func(ps []*j5schema.ObjectProperty) string {
+		parts := make([]string, 0, len(ps))
+		for _, p := range ps {
+			parts = append(parts, fmt.Sprintf("%s%v:%s", p.JSONName, p.ProtoField, field(p.Schema)))
+		}
+		return strings.Join(parts, ",")
+	}
+	field = func(f j5schema.FieldSchema) string {
+		switch t := f.(type) {
+		case *j5schema.ArrayField:
+			return "a" + field(t.Schema)
+		case *j5schema.MapField:
+			return "m" + field(t.Schema)
+		case *j5schema.ObjectField:
+			if t.Ref == nil || isNilSchema(t.Ref.To) {
+				return "!"
+			}
+			return obj(t.Ref.To)
+		case *j5schema.OneofField:
+			if t.Ref == nil || isNilSchema(t.Ref.To) {
+				return "!"
+			}
+			return obj(t.Ref.To)
+		case *j5schema.EnumField:
+			return "e"
+		}
+		return "s"
+	}
+	obj = func(r j5schema.RootSchema) string {
+		if seen[r.FullName()] {
+			return "@" + r.FullName()
+		}
+		seen[r.FullName()] = true
+		defer func() { seen[r.FullName()] = false }()
+		switch t := r.(type) {
+		case *j5schema.ObjectSchema:
+			return "{" + props(t.ClientProperties()) + "}"
+		case *j5schema.OneofSchema:
+			return "<" + props(t.ClientProperties()) + ">"
+		}
+		return "?"
+	}
+	return obj(root)
+}
+
 // ------------------------------------------------------------------ graph -> real descriptors
 
 var scalarTypes = []descriptorpb.FieldDescriptorProto_Type{
@@ -276,7 +376,8 @@ func buildDescriptors(g Graph, split bool) ([]protoreflect.Descriptor, map[strin
 				return nil, nil, fmt.Errorf("graph not expressible: field number / wrapper")
 			}
 			seen[f.Num] = true
-			fname := "f" + strconv.Itoa(f.Num)
+			// unique over the whole graph: a flattened child's properties appear among its parent's
+			fname := "n" + strconv.Itoa(i) + "f" + strconv.Itoa(f.Num)
 			fd := &descriptorpb.FieldDescriptorProto{Name: proto.String(fname), Number: proto.Int32(int32(f.Num)),
 				JsonName: proto.String(fname), Label: descriptorpb.FieldDescriptorProto_LABEL_OPTIONAL.Enum()}
 			badKey := false
@@ -316,10 +417,18 @@ func buildDescriptors(g Graph, split bool) ([]protoreflect.Descriptor, map[strin
 				fd.OneofIndex = proto.Int32(0)
 			}
 			switch f.Wrap {
+			case "f": // (j5.ext.v1.field).message.flatten = true
+				if f.Base != 'r' || g[f.Ref].Kind != 'o' || n.Kind != 'o' {
+					return nil, nil, fmt.Errorf("graph not expressible: flatten of a non-object")
+				}
+				opts := &descriptorpb.FieldOptions{}
+				proto.SetExtension(opts, ext_j5pb.E_Field, &ext_j5pb.FieldOptions{
+					Type: &ext_j5pb.FieldOptions_Message{Message: &ext_j5pb.MessageFieldOptions{Flatten: true}}})
+				fd.Options = opts
 			case "a":
 				fd.Label = descriptorpb.FieldDescriptorProto_LABEL_REPEATED.Enum()
 			case "m":
-				entry := "F" + strconv.Itoa(f.Num) + "Entry"
+				entry := "N" + strconv.Itoa(i) + "f" + strconv.Itoa(f.Num) + "Entry" // CamelCase(field name) + "Entry"
 				key := &descriptorpb.FieldDescriptorProto{Name: proto.String("key"), Number: proto.Int32(1), JsonName: proto.String("key"),
 					Label: descriptorpb.FieldDescriptorProto_LABEL_OPTIONAL.Enum(), Type: descriptorpb.FieldDescriptorProto_TYPE_STRING.Enum()}
 				if badKey {
